@@ -121,13 +121,16 @@ def classify(rc, err, cpu_limited=False, wall_timeout=False):
     return "exit-%d" % rc
 
 
-def run(binary, args, cwd, stdin=b"", env=None, cpu_limit=10, wall_limit=120, prefix=None, affinity=None):
+def run(binary, args, cwd, stdin=b"", env=None, cpu_limit=10, wall_limit=120, prefix=None, affinity=None, stdin_pauses=None,
+        stdout_to=None):
     """Run the real binary once.
 
     stdin: bytes (piped, possibly empty = an empty diff), None (/dev/null), or "pty" (a real
     terminal on stdin, which is what "run interactively" means for blockwatch).
     Hangs are decided on CPU time (RLIMIT_CPU -> SIGXCPU/SIGKILL); the wall limit only guards the
     harness and yields the class "wall-timeout", which callers treat as inconclusive.
+    stdin_pauses: [(offset, seconds)] - the piped stdin is written up to each offset, then the writer sleeps (a producer that is slow
+    to start or pauses in the middle; the pipe stays open). stdout_to: path opened for writing as stdout (e.g. /dev/full).
     """
     argv = list(prefix or []) + [binary] + list(args)
     full_env = clean_env(env)
@@ -151,15 +154,40 @@ def run(binary, args, cwd, stdin=b"", env=None, cpu_limit=10, wall_limit=120, pr
             os.sched_setaffinity(0, affinity)
 
     r0 = resource.getrusage(resource.RUSAGE_CHILDREN)
-    proc = subprocess.Popen(argv, cwd=cwd, env=full_env, stdin=sin, stdout=subprocess.PIPE,
+    sout = open(stdout_to, "wb") if stdout_to else subprocess.PIPE
+    proc = subprocess.Popen(argv, cwd=cwd, env=full_env, stdin=sin, stdout=sout,
                             stderr=subprocess.PIPE, preexec_fn=pre, close_fds=True)
+    if stdout_to:
+        sout.close()
     wall_timeout = False
+    if stdin_pauses and data is not None:
+        import threading
+
+        pipe_in = proc.stdin
+        proc.stdin = None         # the feeder thread owns stdin; communicate() only collects the outputs
+
+        def feed(payload=data):
+            pos = 0
+            try:
+                for off, secs in sorted(stdin_pauses):
+                    pipe_in.write(payload[pos:off])
+                    pipe_in.flush()
+                    pos = off
+                    time.sleep(secs)
+                pipe_in.write(payload[pos:])
+                pipe_in.close()
+            except (BrokenPipeError, ValueError, OSError):
+                pass
+        threading.Thread(target=feed, daemon=True).start()
+        data = None
     try:
         out, err = proc.communicate(data, timeout=wall_limit)
+        out = out or b""
     except subprocess.TimeoutExpired:
         wall_timeout = True
         proc.kill()
         out, err = proc.communicate()
+        out = out or b""
     finally:
         if master is not None:
             os.close(master)
